@@ -16,7 +16,7 @@ class C20(Prop):
     assumptions = ["random.choice(seq) is seq[randbelow(len(seq))] (CPython 3.12 body, executed for real on scripted randbelow)",
                    "randbelow is uniform (not tested)"]
     model_scope = "modelled: gcmpy/tools/draw_set.py in full (every statement of add/remove/draw/__contains__/__len__/__iter__)"
-    budgets = {"quick": 400, "thorough": 6000}
+    budgets = {"quick": 400, "thorough": 20000}
     search_budget = {"quick": 2000, "thorough": 20000}
 
     def gen(self, rng, i, tier):
